@@ -774,7 +774,8 @@ class FreshServer:
         import sys
 
         env = dict(os.environ, PYTHONHASHSEED=hashseed, VERIF_DIR=os.path.dirname(os.path.dirname(os.path.abspath(__file__))), PYTHONDONTWRITEBYTECODE="1")
-        self.p = subprocess.Popen([sys.executable, "-c", SERVER_CODE], env=env, stdin=subprocess.PIPE, stdout=subprocess.PIPE, stderr=subprocess.DEVNULL)
+        # same interpreter flags as this process (the -O pass starts its server under -O too): only the hash seed differs
+        self.p = subprocess.Popen([sys.executable] + (["-O"] if sys.flags.optimize else []) + ["-c", SERVER_CODE], env=env, stdin=subprocess.PIPE, stdout=subprocess.PIPE, stderr=subprocess.DEVNULL)
 
     def call(self, name, args):
         import pickle
